@@ -341,6 +341,25 @@ def rule_line_range(ctx, F):
             ctx.bad("T6", "utf16_len:sums-len_utf16-over-lossy-chars", "utf16_len no longer sums char::len_utf16 over LossyUtf8 chunks")
 
 
+def rule_fresh_parse(ctx, F):
+    """R1: every document is tagged from its own parse.  A TagsContext keeps one Parser; a run that was cancelled while
+    parsing leaves an outstanding parse in it, and the next parse call would *resume* it against the new text.  So on
+    every path to the parse call in generate_tags the parser was reset — by Parser::reset or by Parser::set_language
+    (which resets) — in this call."""
+    from rsrules import calls_named, find_fn
+    fn = find_fn(ctx, F, "TagsContext::generate_tags", "R1")
+    if not fn:
+        return
+    use = [pt for pt, c, d in calls_named(fn, "Parser", "::parse")]
+    rst = [pt for pt, c, d in calls_named(fn, "Parser", "::reset")] + [pt for pt, c, d in calls_named(fn, "Parser", "::set_language")]
+    ctx.floor("parse calls in generate_tags", len(use), 1)
+    if not rst:
+        ctx.bad("R1", "generate_tags:parser-reset-before-parse", "generate_tags neither resets its parser nor assigns the language before parsing: after a run that was cancelled while parsing, "
+                "the next document is parsed as the continuation of the previous one and its tags carry the previous document's positions")
+        return
+    ctx.before("R1", "generate_tags:parser-reset-before-parse", fn, use, rst, "the parser is reset (Parser::reset or Parser::set_language) on every path before the document is parsed")
+
+
 def run(ctx):
     ctx.config = "rust"
     F = ctx.extract.rsfacts(CRATE)
@@ -348,6 +367,7 @@ def run(ctx):
     rule_next(ctx, F)
     rule_line_range(ctx, F)
     rule_docs(ctx, F)
+    rule_fresh_parse(ctx, F)
     return ctx.finish(
         "Value-flow rules over rustc MIR of tree-sitter-tags (TagsIter::next, line_range, utf16_len): which node and which positions each field of a Tag and of the "
         "per-line cache is computed from, the gates on using the cache and on dropping a tag, and the bounds of the line window. "
